@@ -199,6 +199,18 @@ void run_C10(void) {
             case_end(ell >= 1);
           }
     }
+  // every length 0..10000, both implementations of every kernel against each other (both tiers)
+  for (int k = 0; k < N_KERNELS; k++)
+    for (uint64_t e0 = 0; e0 <= 10000; e0 += 500) {
+      char key[128];
+      snprintf(key, sizeof key, "%s|every-ell,ref~avx2", q120_kernel_name[k]);
+      const uint64_t e1 = e0 + 499 > 10000 ? 10000 : e0 + 499;
+      if (!case_begin(key, "ell=%" PRIu64 "..%" PRIu64, e0, e1)) continue;
+      const uint64_t n = q120_pairwise_ell_check((q120_kernel_t)k, e0, e1, (int)((e0 / 500 + (uint64_t)k) % QF_N), (int)((e0 / 500 + 3) % QF_N), crng());
+      cnt("pairwise_ell_values", n);
+      sample("%" PRIu64 " consecutive lengths: both implementations congruent", n);
+      case_end(1);
+    }
   // every length 0..10000 for every kernel flavour (blocks of 250 lengths per case; quick tier: see below)
   for (int k = 0; k < N_KERNELS; k++)
     for (int avx2 = 0; avx2 <= 1; avx2++) {
